@@ -179,6 +179,9 @@ def check_bic(rec: Rec, text: str, strict: bool, origin: str):
 
 
 def replay(rec, case):
+    if case["input"].get("origin") == "configurations":
+        from ._configs import replay as _r
+        return _r(rec, case)
     from .. import dims
     from ..lib import BIC, IBAN
     i = case["input"]
@@ -343,6 +346,34 @@ def shard_bic(arg):
     return rec
 
 
+def shard_codepoints(arg):
+    """Every code point of the code space at one BBAN position of a valid IBAN, and at one position of a BIC: validation
+    stays total and names a defect that is present (error messages that describe the offending character included)."""
+    lo, hi, seed = arg
+    from ._shared import codepoint_texts
+    rec = Rec()
+    for ch, equiv, t in codepoint_texts(lo, hi, seed):
+        flag = bool(ord(ch) & 1)
+        must, defs = check_iban(rec, t, flag, "codepoint")
+        rec.evals += 1
+        if defs:
+            rec.nt.add(hash((t, flag)))
+        rec.classes["codepoint" if defs else "codepoint-accepted"] += 1
+        eq = gens.ascii_equivalents(ch)
+        a = eq[0] if (eq and eq[0] in ASCII_UPPER) else "M"
+        b = "DEUT" + "DE" + "FF"
+        b = b[:2] + a + b[3:]
+        b = b[:2] + ch + b[3:]
+        strict = not flag
+        must, defs = check_bic(rec, b, strict, "codepoint")
+        rec.evals += 1
+        if defs:
+            rec.nt.add(hash((b, strict)))
+        rec.classes["bic-codepoint" if defs else "bic-codepoint-accepted"] += 1
+    rec.exhaustive.append("every code point 0..0x10FFFF at one BBAN position of one valid IBAN and at one position of a BIC")
+    return rec
+
+
 def registry_formats(rec: Rec, seed):
     """Bank rows in the minimal format the registry README documents (no checksum_algo), with an unknown method, and a
     non-German row carrying a method: validating IBANs of those banks - with and without national validation - stays total
@@ -410,7 +441,8 @@ def run(ctx):
     o = oracle()
     ctx.rule = ("IBAN texts x {national validation off, on}: per country a nationally valid base and its complete "
                 "single-replacement neighbourhood over alphabet W; constructive multi-defect inputs for every non-empty "
-                "subset of {national, checksum, format, chars, length, country}; Hypothesis near-valid edit chains and "
+                "subset of {national, checksum, format, chars, length, country}; every code point 0..0x10FFFF at one BBAN "
+                "position and at one BIC position; Hypothesis near-valid edit chains and "
                 "arbitrary Unicode. BIC texts x {iso, strict}: bases x W, every length, multi-defect combinations. "
                 "Non-trivial = at least one defect present according to the reference and the text is within 3 edits of a "
                 "valid one or contains non-ASCII; distinct by (text, mode).")
@@ -425,12 +457,15 @@ def run(ctx):
     ctx.pmap(shard_country, [(cc, ctx.seed, ctx.tier, alphabet) for cc in o.countries()])
     from .c04 import bases
     ctx.pmap(shard_bic, [(b, alphabet) for b in bases(ctx.rng("bic"), ctx.pick(2, 20))])
+    ctx.pmap(shard_codepoints, [(lo, hi, ctx.seed) for lo, hi in gens.codepoint_chunks(64)])
     registry_formats(ctx.rec, ctx.seed)
     ctx.hyp_parallel(text_strategy, hyp_body, ctx.pick(8000, 400000), name="C05-text")
     if not ctx.quick:
         from ..engines import fuzz
         fuzz.run_campaign(ctx.rec, "iban-c05", 100000, ctx.seed, ctx.prop)   # secondary engine: coverage-guided, oracle inside
         fuzz.run_campaign(ctx.rec, "bic-c05", 100000, ctx.seed, ctx.prop)
+    from ._configs import stage as _config_stage
+    _config_stage(ctx, ['parse', 'bic'])
     ctx.require_classes("alias-spelling", "registry-formats", "ws-extreme", "ws-extreme-defects", "token", "argform-userstr", "argform-own-object", "bic-argform-own-object",
                         "valid", "replace-defects-1", "replace-defects-2", "inject-1-defects", "inject-4-defects",
-                        "nationally-invalid", "bic-base", "bic-multi-defects-3", "hyp-iban-near", "hyp-bic-near")
+                        "nationally-invalid", "codepoint", "bic-codepoint", "bic-base", "bic-multi-defects-3", "hyp-iban-near", "hyp-bic-near")
